@@ -406,8 +406,18 @@ fn case_iter(rng: &mut Rng, replay: &str) -> (Verdict, u64) {
     let mut wrapped = items.clone().into_iter().progress_with(pb.clone());
     let mut calls = 0u64;
     let mut yielded = 0u64;
-    let w = J::obj().with("adaptor", "Iterator").with("items", n).with("declared_len", declared).with("on_finish", fin_name);
+    // one pass in four hands the rest of the items to internal iteration after k external steps (for_each, count,
+    // fold consume the adaptor by value - an adaptor that overrides fold() must still finish the bar while the
+    // caller keeps a handle; round 12)
+    let internal: Option<(u64, u64)> = rng.chance(1, 4).then(|| (rng.range(0, n), rng.below(3)));
+    let w = J::obj().with("adaptor", "Iterator").with("items", n).with("declared_len", declared).with("on_finish", fin_name).with(
+        "internal_iteration",
+        internal.map(|(k, how)| format!("{} after {k} items", ["for_each", "count", "fold"][how as usize])),
+    );
     loop {
+        if internal.map_or(false, |(k, _)| yielded == k) {
+            break;
+        }
         calls += 1;
         if wrapped.len() != bare.len() {
             return (viol("result-differs-from-bare-source", "Iterator", format!("len() {} vs {}", wrapped.len(), bare.len()), w, replay.into()), calls);
@@ -431,6 +441,32 @@ fn case_iter(rng: &mut Rng, replay: &str) -> (Verdict, u64) {
             }
         } else {
             break;
+        }
+    }
+    if let Some((_, how)) = internal {
+        let rest: Vec<u64> = bare.by_ref().collect();
+        let got: Vec<u64> = match how {
+            0 => {
+                let mut v = Vec::new();
+                wrapped.for_each(|x| v.push(x));
+                v
+            }
+            1 => {
+                let c = wrapped.count();
+                if c == rest.len() { rest.clone() } else { vec![u64::MAX; c] }
+            }
+            _ => wrapped.fold(Vec::new(), |mut v, x| {
+                v.push(x);
+                v
+            }),
+        };
+        calls += rest.len() as u64 + 1;
+        if got != rest {
+            return (viol("result-differs-from-bare-source", "Iterator", format!("internal iteration yielded {got:?}, the bare source {rest:?}"), w, replay.into()), calls);
+        }
+        yielded += rest.len() as u64;
+        if pb.position() != yielded && !pb.is_finished() {
+            return (viol("position-not-items-yielded", "Iterator", format!("{yielded} items yielded (the last {} by internal iteration), position {}", rest.len(), pb.position()), w, replay.into()), calls);
         }
     }
     // exhausted: finished according to the finish behaviour
